@@ -166,8 +166,8 @@ def worker(cfg):
 
         def body(ctx):
             net = dl.build(arch, A, L, seed=cfg.get("seed", 1), symbolic_weights=cfg.get("symw", False), NN=NN)
-            xc, X, rc, R = dl.sym_inputs(ctx, A, L, B, ns)
-            rp = lambda m: dict(cfg, x=C.eval_chars(m, xc), refs=C.eval_chars(m, rc))
+            xc, X, rc, R = dl.sym_inputs(ctx, A, L, B, ns, concrete=(cfg["x"], cfg["refs"]) if cfg.get("x") is not None else None)
+            rp = lambda m: dict(cfg, x=(cfg["x"] if cfg.get("x") is not None else C.eval_chars(m, xc)), refs=(cfg["refs"] if cfg.get("x") is not None else C.eval_chars(m, rc)))
             try:
                 extra = {"n_shuffles": cfg["n_shuffles_arg"]} if cfg.get("n_shuffles_arg") else {}      # ignored for a reference tensor
                 mult = dls.deep_lift_shap(net, X, references=R, target=target, batch_size=cfg.get("batch_size", 32), device="cpu", raw_outputs=True, **extra)
@@ -260,6 +260,15 @@ def configs(tier):
     # rule (e.g. an activation routed to the max-pool rule) breaks completeness
     for a_ in ("ReLU ReLU6 RReLU SELU CELU GELU SiLU Mish ELU LeakyReLU Sigmoid Tanh Softplus Softshrink LogSigmoid PReLU").split():
         cf.append(dict(kind="e2e", arch="tiny:" + a_, A=2, L=2, B=1, ns=1, target=1, act=a_))
+    import itertools as _it
+    def deep(arch, A, L, every):
+        seqs = [list(s_) for s_ in _it.product(range(A), repeat=L)]
+        pairs = [(a, b) for a in seqs for b in seqs]
+        return [dict(kind="e2e", arch=arch, A=A, L=L, B=1, ns=1, target=(k % 2), x=[a], refs=[[b]]) for k, (a, b) in enumerate(pairs) if k % every == 0]
+    # depth 2-3 end to end: sequences enumerated, activations uninterpreted
+    cf += deep("dense2", 2, 2, 2 if q else 1)
+    if not q:
+        cf += deep("dense3", 2, 2, 1) + deep("conv2", 2, 4, 5) + deep("convmax", 2, 3, 2)
     if not q:
         cf += [dict(kind="lemma_nonlinear", n=4), dict(kind="lemma_maxpool", C=2, L=4, K=2), dict(kind="lemma_maxpool", C=1, L=6, K=3),
                dict(kind="e2e", arch="dense1", A=2, L=3, B=1, ns=1, target=1), dict(kind="e2e", arch="dense1w", A=2, L=3, B=1, ns=1, target=0),
